@@ -78,6 +78,25 @@ PROPS = {
         "rule": "RAND-free, id-free programs (token grammar incl. EXEC.Y divergence and list explosion) on generated states, eval_push_limit in {-1,0,1,2,3,5,10,40,200,m-1,m,m+1}, growth_cap in {0,1,2,3,5,8,500}: PushInterpreter::run on one state, the documented accounting by repeated step() calls on an identical second state; outcome, step count and final state compared with each other and with the model; non-trivial = at least one step executed",
         "assumptions": ["wall-clock: the model has an abstract clock; eval_time_limit is set to 10 minutes so TimeLimitExceeded cannot occur in the scenario (runtime behaviour, not exhibited by the model)"],
     },
+    "C06": {
+        "scenarios": lambda tier, q: [
+            {"name": "loops", "args": []},
+            {"name": "exec", "args": [exact(q("scope C06")), "400" if tier == "quick" else "4000"]},
+            {"name": "steps", "args": ["EXEC.,CODE.,INDEX.,INTVECTOR.LOOP,!clean"]},
+        ],
+        "signature": lambda req: " ".join(req.split(" ")[1:4]) if req.startswith("( loop") else sig_exec(req),
+        "rule": "loop programs run to completion: EXEC.LOOP / CODE.LOOP with n in 0..24 (thorough 0..59) and bodies {INDEX.CURRENT, ( INDEX.CURRENT INTEGER.+ ), nested ( m INDEX.DEFINE EXEC.LOOP INDEX.CURRENT )}, INTVECTOR.LOOP over vectors of length 0..24 with body CODE.FROMINTEGER, each on a clean and on a cluttered state, final state compared with the documented iteration; the combinators IF/K/S/Y/DUP/DO/DO*/QUOTE and INDEX.* by NAME on generated states; control-flow-dense programs single-stepped with every transition validated; non-trivial = the state changed",
+        "assumptions": ["a loop body that pops the loop's own index is outside the documented contract (BodyOk)"],
+    },
+    "C07": {
+        "scenarios": lambda tier, q: [
+            {"name": "steps", "args": ["*.DEFINE,NAME.QUOTE,CODE.DEFINITION,NAME.DUP,CODE.QUOTE,!clean"]},
+            {"name": "exec", "args": [exact(q("scope C07")), "400" if tier == "quick" else "4000"]},
+        ],
+        "signature": lambda req: sig_exec(req) if req.startswith("( exec") else "step " + req[req.find(" ) ( ") :][:0],
+        "rule": "programs dense in names, the eight DEFINE instructions, NAME.QUOTE and CODE.DEFINITION (names drawn from a small pool so that define / use / quote / redefine interleave), single-stepped with every transition validated against the model and the name-step / definition statements; DEFINE, NAME.QUOTE, CODE.DEFINITION by NAME on generated states with bound and unbound names; non-trivial = the state changed",
+        "assumptions": [],
+    },
     "C01": {
         "scenarios": lambda tier, q: [
             {"name": "exec", "args": ["*"]},
